@@ -699,6 +699,7 @@ def r11_13(run):
                 and callee_attr(n.ast.value.value) == 'get_conf' and len(n.ast.targets) == 1 and isinstance(n.ast.targets[0], ast.Name):
             ans.append(n)
     run.floor('R11.13', 'GETCONF answers in _do_setup', len(ans), 2)
+    loops_ast = [x for x in walk_unit(ds) if isinstance(x, (ast.For, ast.While))]
     k = 0
     for a in ans:
         vname = a.ast.targets[0].id
@@ -720,10 +721,25 @@ def r11_13(run):
                         dep.update(tg)
                     elif isinstance(n.ast, ast.Assign):
                         dep.difference_update(tg)
+            used = set(x.id for x in ast.walk(last.ast.value) if isinstance(x, ast.Name))
+            # whatever the leg: a local the store reads was assigned for *this* option (on this path, or at a point every path to the
+            # store passes inside the loop body) - otherwise it is what an earlier option left behind
+            on_path = set()
+            for n, lab in p_.steps[:-1]:
+                if n.kind == 'stmt' and lab != 'exc' and isinstance(n.ast, (ast.Assign, ast.AugAssign)):
+                    on_path.update(assigned_targets(n.ast))
+            for nm in sorted(used):
+                assigners = [n for n in g.live if n.kind in ('stmt', 'iter') and node_assigns(n, nm)]
+                in_loop = [n for n in assigners if any(lp_ is not n.ast and any(x is n.ast for x in ast.walk(lp_)) for lp_ in loops_ast)]
+                if not in_loop or nm in on_path:
+                    continue
+                fresh = any(g.dominates(n, last) for n in in_loop)
+                run.ob('R11.13', ds, last.ast, 'a local the store reads was computed for this option', fresh, slot='stale-local:%s:%s' % (src(last.ast.targets[0]), nm),
+                       message='_do_setup stores %s on %s, where %s was not assigned for this option: it still holds what an earlier option left in it'
+                               % (src(last.ast.value)[:50], p_.describe(8), nm))
             if unset:
                 continue
             k += 1
-            used = set(x.id for x in ast.walk(last.ast.value) if isinstance(x, ast.Name))
             run.ob('R11.13', ds, last.ast, 'what the view stores for a set option is computed from Tor\'s answer', bool(used & dep),
                    slot='answer-stored:%s' % src(last.ast.targets[0]),
                    message='_do_setup stores %s, which does not depend on the GETCONF answer %s, on %s: the view reports something else than Tor\'s value'
@@ -758,6 +774,7 @@ F = 'txtorcon/torconfig.py'
 MUTANTS = [
     M('event-skips-pending-options', F, "            real_name = self._find_real_name(k)\n            if real_name in self.list_parsers:", "            real_name = self._find_real_name(k)\n            if real_name in self.unsaved:\n                continue\n            if real_name in self.list_parsers:", ['R11.12']),
     M('single-default-line-as-str', F, "                    parsed = defaults.get(rn, [])\n                    if not isinstance(parsed, list):\n                        parsed = [parsed]  # just one default line\n", "                    parsed = defaults.get(rn, [])\n", ['R11.11']),
+    M('unset-scalar-keeps-previous-option', F, "                    parsed = DEFAULT_VALUE\n                else:\n                    parsed = self.parsers[rn].parse(v)", "                    pass\n                else:\n                    parsed = self.parsers[rn].parse(v)", ['R11.13']),
     M('port-list-answer-dropped', F, "                    initial = [self.parsers[rn].parse(x) for x in v]\n", "                    pass\n", ['R11.13']),
     M('scalar-answer-dropped', F, "                else:\n                    parsed = self.parsers[rn].parse(v)\n                self.config[rn] = parsed", "                else:\n                    parsed = DEFAULT_VALUE\n                self.config[rn] = parsed", ['R11.13']),
     M('port-values-nested', F, "                elif isinstance(v, list):\n                    initial = [self.parsers[rn].parse(x) for x in v]\n                else:", "                else:", ['R11.11']),
